@@ -352,6 +352,50 @@ def main(replay=None):
                                   {"N": "a nular operator", "U": "a unary operator", "B": "a binary operator"}[kind]), rep)
                 break
 
+    # ------------------------------------------------------------- family E: per-thread / per-process state of the C library
+    # Nothing of the project's own statics is involved here: Q makes libc / libm leave something behind on the thread (errno = ERANGE
+    # from an overflowing pow / exp / strtod, floating-point exception flags from a division by zero or an overflow), P - in a fresh
+    # instance on the same thread - reads numbers from a config it loads (decimal, hex, arrays) and prints arithmetic results.
+    E_Q = ['diag_log str (10 ^ 39)', 'diag_log str (exp 100)', 'diag_log str (parseNumber "1e999")', 'configparse__ "class VerifQ { v = 1e999; w = 1e-999; };"; diag_log "q"',
+           'diag_log str [10 ^ 39, exp 100, parseNumber "1e999", exp (-1000)]', 'diag_log str [1 / 0, (-1) / 0, sqrt (-1), ln 0, 1e38 * 1e38, 10 ^ (-45), asin 2]',
+           'diag_log str ([1,2,3] select 5)', 'diag_log str (parseNumber "99999999999999999999999999999999999999999999999")', 'diag_log str (tan 90)']
+    E_P = ['configparse__ "class VerifN { d = 1.5; h = 0x1F; big = 123456; neg = -2.75; e = 1e3; arr[] = {2.25, 0x10, -3, 7}; class In { z = 0.125; k = 0xff; }; };"; '
+           'diag_log str [getNumber (configFile >> "VerifN" >> "d"), getNumber (configFile >> "VerifN" >> "h"), getNumber (configFile >> "VerifN" >> "big"), '
+           'getNumber (configFile >> "VerifN" >> "neg"), getNumber (configFile >> "VerifN" >> "e"), getArray (configFile >> "VerifN" >> "arr"), '
+           'getNumber (configFile >> "VerifN" >> "In" >> "z"), getNumber (configFile >> "VerifN" >> "In" >> "k")]',
+           'diag_log str [1 / 3, 2 ^ 0.5, 10 mod 3, floor 2.5, round 2.5, round 3.5, 0.1 + 0.2, 7 / 2, sqrt 2, sin 30, parseNumber "12.5", parseNumber "0x1A", 1e10 * 3]',
+           'diag_log str [parseNumber "3.25", parseNumber "1e5", parseNumber "-0.5", parseNumber "17"]; configparse__ "class VerifM { a = 3; b = 0x7; };"; '
+           'diag_log str [getNumber (configFile >> "VerifM" >> "a"), getNumber (configFile >> "VerifM" >> "b")]']
+    casesE = []
+    if replay:
+        r = json.load(open(replay))["replay"]
+        if r.get("family") == "E":
+            casesE = [(r["text_p"], r["text_q"])]
+    else:
+        casesE = [(tp, tq) for tp in E_P for tq in E_Q] + [(tp, "; ".join(E_Q)) for tp in E_P]
+    il = []
+    for tp, tq in casesE:
+        for m in ("alone", "after", "twice", "beside", "alone"):
+            il.append("%s\t%s\t%s" % (m, hx(tp), hx(tq)))
+    rc, implE, _ = harness_run("iso", il, timeout=3000)
+    it = iter(implE)
+    dist["E pairs (C library state: errno, floating-point flags)"] = len(casesE)
+    flaggedE = set()
+    for tp, tq in casesE:
+        r = {m: next(it) for m in ("alone", "after", "twice", "beside", "alone2")}
+        if r.pop("alone2") != r["alone"]:
+            dist["E dropped: alone-record not reproducible"] = dist.get("E dropped: alone-record not reproducible", 0) + 1
+            continue
+        evaluations += 3
+        distinct.add(("E", tp, tq))
+        for m in ("after", "twice", "beside"):
+            if r[m] != r["alone"] and (tp, m) not in flaggedE:
+                flaggedE.add((tp, m))
+                run.violation("output(P in a fresh VM) differs when Q ran %s on the same thread: what Q left behind in the C library (errno, floating-point state) "
+                              "changes the numbers a fresh instance reads / computes" % {"after": "before it", "beside": "beside it (another thread)", "twice": "(P itself) before it"}[m],
+                              {"family": "E", "text_p": tp, "text_q": tq, "impl": r, "mode": m})
+                break
+
     # ------------------------------------------------------------- family R: re-entrancy through the log callback (one thread)
     # Instance A runs an expression P whose operator emits a non-fatal diagnostic part-way through; inside A's log callback the
     # host lets instance B run Q (the same operator with other operands, and another operator).  By the property A's value and its
@@ -506,6 +550,8 @@ def main(replay=None):
                        "(discovered on this run; time/random and control operators excepted): Q edits the returned container in place, P prints the operator's result, four modes; "
                        "family O: words that are operators only in a full instance (registry(full) minus registry(basic), from the dumps of this run): P uses the word as a variable "
                        "in a basic / empty instance while Q uses it as an operator in a full one, and the reverse, four modes; "
+                       "family E: Q leaves C-library state behind on the thread (errno from overflowing ^ / exp / parseNumber / a config literal, floating-point flags from divisions by zero and overflows), "
+                       "P in a fresh instance loads a config with decimal / hex numbers and arrays and reads them back, and prints arithmetic results; "
                        "family R (re-entrancy, one thread): candidates = the registry-wide operand sweep of checks/C09.py (one case per signature) plus string-building operators with "
                        "out-of-range / missing arguments, each run alone; those that return a value and emit a non-error diagnostic before it are paired (same operator with "
                        "other operands, another operator): instance B runs Q inside the log callback of instance A at A's k-th diagnostic of P; A's record must equal P alone, "
